@@ -141,6 +141,8 @@ class C19(Machine):
                 world["eager_limit"] = 0
                 cfg["probe_zero_buffer"] = True
             if cfg["measure"] == "nsi_arenas":
+                # the measure is also defined on directed networks
+                cfg["directed"] = a.random() < 0.25
                 cfg["exclude_neighbors"] = a.choice((True, False))
                 cfg["stopping_mode"] = a.choice(("neighbors", "twinness"))
             if cfg["measure"] == "nsi_newman":
@@ -205,9 +207,23 @@ class C19(Machine):
         w = None if cfg["weights"] is None else G.weights(n, cfg["weights"])
         sl = cfg["silence_level"]
 
+        directed = bool(cfg.get("directed"))
+        if directed:
+            # drop one direction of a third of the links
+            rd = _random.Random(g["gseed"] + 7)
+            for i in range(n):
+                for j in range(i + 1, n):
+                    if A[i, j] and rd.random() < 0.33:
+                        if rd.random() < 0.5:
+                            A[i, j] = 0
+                        else:
+                            A[j, i] = 0
+            R.probe("directed_network_distributed")
+
         def mk():
             return Network(adjacency=A.copy(), node_weights=None if w is None
-                           else w.copy(), silence_level=sl)
+                           else w.copy(), directed=directed,
+                           silence_level=sl)
 
         kind = cfg["kind"]
         tag = f"{self.pid}|{kind}|"
